@@ -28,14 +28,14 @@ Lemma nth_error_set_nth_neq : forall A (l : list A) n m x,
   n <> m -> nth_error (set_nth n x l) m = nth_error l m.
 Proof.
   intros A l; induction l as [|y l IH]; intros n m x Hnm; simpl.
-  - reflexivity.
+  - destruct n; reflexivity.
   - destruct n as [|n]; destruct m as [|m]; simpl; try reflexivity; try congruence.
     apply IH. congruence.
 Qed.
 
 Lemma length_set_nth : forall A (l : list A) n x, List.length (set_nth n x l) = List.length l.
 Proof.
-  intros A l; induction l as [|y l IH]; intros n x; simpl; [reflexivity|].
+  intros A l; induction l as [|y l IH]; intros n x; simpl; [destruct n; reflexivity|].
   destruct n; simpl; [reflexivity|]. now rewrite IH.
 Qed.
 
@@ -243,7 +243,7 @@ Section Safe.
           inversion E; subst. apply I1. eapply merge_norm_r; eauto.
         * intros m h [E|Hin]; [discriminate|apply I3; exact Hin].
       + destruct (block_exits es norm) as [[n' out']|] eqn:Eb; [|discriminate].
-        inversion Hb; subst. destruct (IH _ _ _ eq_refl) as [I1 [I2 I3]]. repeat split.
+        inversion Hb; subst. destruct (IH _ _ _ Eb) as [I1 [I2 I3]]. repeat split.
         * exact I1.
         * intros h [E|Hin]; [discriminate|apply I2; exact Hin].
         * intros m h [E|Hin]; [inversion E; subst; left; reflexivity|right; apply I3; exact Hin].
@@ -424,7 +424,7 @@ Section Safe.
     inversion Hc; subst; clear Hc.
     exists b. split; [reflexivity|]. intros n Hsp k Hn.
     eapply check_stmt_sound; [|exact Es|exact Hsp| |].
-    - intros f' h' ro' Hcall. destruct (f' <? f); [|discriminate]. apply IH. exact Hcall.
+    - intros f' h' ro' Hcall. cbv beta in Hcall. destruct (f' <? f); [|discriminate]. apply IH. exact Hcall.
     - intros h' E. apply safe_ret. apply Hn. exact E.
     - intros m h' Hin. rewrite Er in Hin. destruct Hin.
   Qed.
@@ -471,3 +471,1126 @@ Section Safe.
     intros f Hf n. apply H. exact Hf.
   Qed.
 End Safe.
+
+(* ------------------------------------------------------------------------- *)
+(** * 2. The global invariant and its preservation                            *)
+(* ------------------------------------------------------------------------- *)
+
+(** How many times thread [t] holds a lock in write mode (0 or 1). *)
+Definition wcount (s : lstate) (t : tid) : nat :=
+  match writer s with
+  | Some t' => if Nat.eq_dec t' t then 1 else 0
+  | None => 0
+  end.
+
+(** The statically tracked held multiset [h] of thread [t] is exactly what
+    the lock machine says [t] holds. *)
+Definition agrees (L : locks) (t : tid) (h : held) : Prop :=
+  forall c,
+    count_occ lm_eq_dec h (c, R) = count_occ Nat.eq_dec (readers (L c)) t /\
+    count_occ lm_eq_dec h (c, W) = wcount (L c) t.
+
+Lemma upd_same : forall L c s, upd L c s c = s.
+Proof. intros. unfold upd. destruct (lclass_eq_dec c c); [reflexivity|congruence]. Qed.
+
+Lemma upd_other : forall L c s c', c <> c' -> upd L c s c' = L c'.
+Proof. intros. unfold upd. destruct (lclass_eq_dec c c'); [congruence|reflexivity]. Qed.
+
+Lemma lm_neq_RW : forall c c' : lclass, (c, R) <> (c', W).
+Proof. intros c c' E. inversion E. Qed.
+
+Ltac inv H := inversion H; subst; clear H.
+
+Ltac cases_upd c c' :=
+  unfold upd; destruct (lclass_eq_dec c c') as [?E|?N]; [subst|].
+
+Lemma count_cons_eq : forall (h : held) x, count_occ lm_eq_dec (x :: h) x = S (count_occ lm_eq_dec h x).
+Proof. intros. simpl. destruct (lm_eq_dec x x); [reflexivity|congruence]. Qed.
+
+Lemma count_cons_neq : forall (h : held) x y, x <> y -> count_occ lm_eq_dec (x :: h) y = count_occ lm_eq_dec h y.
+Proof. intros. simpl. destruct (lm_eq_dec x y); [congruence|reflexivity]. Qed.
+
+Lemma agrees_acq_R : forall L t h c,
+  agrees L t h -> agrees (upd L c (add_reader t (L c))) t ((c, R) :: h).
+Proof.
+  intros L t h c Ha c'. destruct (Ha c') as [H1 H2]. cases_upd c c'.
+  - simpl readers. split.
+    + rewrite count_cons_eq. simpl. destruct (Nat.eq_dec t t); [|congruence]. now rewrite H1.
+    + rewrite count_cons_neq by apply lm_neq_RW. exact H2.
+  - split.
+    + rewrite count_cons_neq by congruence. exact H1.
+    + rewrite count_cons_neq by congruence. exact H2.
+Qed.
+
+Lemma agrees_acq_R_other : forall L t t' h c,
+  t' <> t -> agrees L t' h -> agrees (upd L c (add_reader t (L c))) t' h.
+Proof.
+  intros L t t' h c Hne Ha c'. destruct (Ha c') as [H1 H2]. cases_upd c c'.
+  - split; [|exact H2]. simpl. destruct (Nat.eq_dec t t'); [congruence|exact H1].
+  - split; assumption.
+Qed.
+
+Lemma agrees_rel_R : forall L t h c,
+  agrees L t h -> agrees (upd L c (del_reader t (L c))) t (remove_one lm_eq_dec (c, R) h).
+Proof.
+  intros L t h c Ha c'. destruct (Ha c') as [H1 H2]. rewrite !count_occ_remove_one.
+  cases_upd c c'.
+  - simpl readers. rewrite count_occ_remove_one.
+    destruct (lm_eq_dec (c', R) (c', R)); [|congruence].
+    destruct (Nat.eq_dec t t); [|congruence].
+    destruct (lm_eq_dec (c', R) (c', W)) as [E|_]; [inversion E|].
+    split; [now rewrite H1|exact H2].
+  - destruct (lm_eq_dec (c, R) (c', R)) as [E|_]; [inversion E; congruence|].
+    destruct (lm_eq_dec (c, R) (c', W)) as [E|_]; [inversion E|].
+    split; assumption.
+Qed.
+
+Lemma agrees_rel_R_other : forall L t t' h c,
+  t' <> t -> agrees L t' h -> agrees (upd L c (del_reader t (L c))) t' h.
+Proof.
+  intros L t t' h c Hne Ha c'. destruct (Ha c') as [H1 H2]. cases_upd c c'.
+  - split; [|exact H2]. simpl readers. rewrite count_occ_remove_one.
+    destruct (Nat.eq_dec t t'); [congruence|exact H1].
+  - split; assumption.
+Qed.
+
+Lemma agrees_pending : forall L t t' h c,
+  agrees L t' h -> agrees (upd L c (add_pending t (L c))) t' h.
+Proof.
+  intros L t t' h c Ha c'. destruct (Ha c') as [H1 H2]. cases_upd c c'; split; assumption.
+Qed.
+
+Lemma agrees_grant : forall L t h c,
+  writer (L c) = None ->
+  agrees L t h -> agrees (upd L c (grant_writer t (L c))) t ((c, W) :: h).
+Proof.
+  intros L t h c Hw Ha c'. destruct (Ha c') as [H1 H2]. cases_upd c c'.
+  - split.
+    + rewrite count_cons_neq by (intro E; inversion E). exact H1.
+    + rewrite count_cons_eq. rewrite H2. unfold wcount. rewrite Hw. simpl.
+      destruct (Nat.eq_dec t t); [reflexivity|congruence].
+  - split; rewrite count_cons_neq by congruence; assumption.
+Qed.
+
+Lemma agrees_grant_other : forall L t t' h c,
+  writer (L c) = None -> t' <> t ->
+  agrees L t' h -> agrees (upd L c (grant_writer t (L c))) t' h.
+Proof.
+  intros L t t' h c Hw Hne Ha c'. destruct (Ha c') as [H1 H2]. cases_upd c c'.
+  - split; [exact H1|]. rewrite H2. unfold wcount. rewrite Hw. simpl.
+    destruct (Nat.eq_dec t t'); [congruence|reflexivity].
+  - split; assumption.
+Qed.
+
+Lemma agrees_rel_W : forall L t h c,
+  writer (L c) = Some t ->
+  agrees L t h -> agrees (upd L c (del_writer (L c))) t (remove_one lm_eq_dec (c, W) h).
+Proof.
+  intros L t h c Hw Ha c'. destruct (Ha c') as [H1 H2]. rewrite !count_occ_remove_one.
+  cases_upd c c'.
+  - destruct (lm_eq_dec (c', W) (c', R)) as [E|_]; [inversion E|].
+    destruct (lm_eq_dec (c', W) (c', W)); [|congruence].
+    split; [exact H1|]. rewrite H2. unfold wcount. rewrite Hw. simpl.
+    destruct (Nat.eq_dec t t); [reflexivity|congruence].
+  - destruct (lm_eq_dec (c, W) (c', R)) as [E|_]; [inversion E|].
+    destruct (lm_eq_dec (c, W) (c', W)) as [E|_]; [inversion E; congruence|].
+    split; assumption.
+Qed.
+
+Lemma agrees_rel_W_other : forall L t t' h c,
+  writer (L c) = Some t -> t' <> t ->
+  agrees L t' h -> agrees (upd L c (del_writer (L c))) t' h.
+Proof.
+  intros L t t' h c Hw Hne Ha c'. destruct (Ha c') as [H1 H2]. cases_upd c c'.
+  - split; [exact H1|]. rewrite H2. unfold wcount. rewrite Hw. simpl.
+    destruct (Nat.eq_dec t t'); [congruence|reflexivity].
+  - split; assumption.
+Qed.
+
+Lemma agrees_holds_R : forall L t h c, agrees L t h -> In (c, R) h <-> In t (readers (L c)).
+Proof.
+  intros L t h c Ha. destruct (Ha c) as [H1 _].
+  rewrite (count_occ_In lm_eq_dec), (count_occ_In Nat.eq_dec). rewrite H1. tauto.
+Qed.
+
+Lemma agrees_holds_W : forall L t h c, agrees L t h -> In (c, W) h <-> writer (L c) = Some t.
+Proof.
+  intros L t h c Ha. destruct (Ha c) as [_ H2].
+  rewrite (count_occ_In lm_eq_dec). rewrite H2. unfold wcount.
+  destruct (writer (L c)) as [t'|].
+  - destruct (Nat.eq_dec t' t); [subst; split; [reflexivity|lia]|].
+    split; [lia|intros E; inversion E; congruence].
+  - split; [lia|discriminate].
+Qed.
+
+Lemma lstep_acq_head : forall p c m k l k',
+  lstep p (KS (SAcq c m) :: k) l k' -> l = LAcq c m /\ k' = k.
+Proof. intros p c m k l k' H. inv H. split; reflexivity. Qed.
+
+Lemma lstep_label_acq : forall p k c m k',
+  lstep p k (LAcq c m) k' -> k = KS (SAcq c m) :: k'.
+Proof. intros p k c m k' H. inv H. reflexivity. Qed.
+
+Lemma lstep_label_rel : forall p k c m k',
+  lstep p k (LRel c m) k' -> k = KS (SRel c m) :: k'.
+Proof. intros p k c m k' H. inv H. reflexivity. Qed.
+
+Section Invariant.
+  Variable p : program.
+  Variable guard : held -> sk -> bool.
+
+  Record Inv (c : config) : Prop := {
+    inv_thr  : forall t k, nth_error (thr c) t = Some k ->
+                 exists h, agrees (lk c) t h /\ safe p guard h k;
+    inv_excl : forall c0, writer (lk c c0) <> None -> readers (lk c c0) = [];
+    inv_wq   : forall c0 t, In t (wq (lk c c0)) ->
+                 exists k, nth_error (thr c) t = Some (KS (SAcq c0 W) :: k);
+    inv_dom  : forall c0 t, In t (readers (lk c c0)) \/ writer (lk c c0) = Some t ->
+                 t < List.length (thr c)
+  }.
+
+  (** Threads after a move of thread [t]. *)
+  Lemma thr_step : forall L L' T t k' ,
+    (forall t' k0, nth_error T t' = Some k0 -> exists h, agrees L t' h /\ safe p guard h k0) ->
+    t < List.length T ->
+    (exists h', agrees L' t h' /\ safe p guard h' k') ->
+    (forall t' h, t' <> t -> agrees L t' h -> agrees L' t' h) ->
+    forall t' k0, nth_error (set_nth t k' T) t' = Some k0 ->
+      exists h, agrees L' t' h /\ safe p guard h k0.
+  Proof.
+    intros L L' T t k' Hold Hlt Hnew Hoth t' k0 Hn.
+    destruct (Nat.eq_dec t t') as [E|N].
+    - subst t'. rewrite nth_error_set_nth_eq in Hn by exact Hlt. inversion Hn; subst. exact Hnew.
+    - rewrite nth_error_set_nth_neq in Hn by exact N.
+      destruct (Hold _ _ Hn) as [h [Ha Hs]]. exists h. split; [|exact Hs].
+      apply Hoth; [congruence|exact Ha].
+  Qed.
+
+  (** Pending writers keep standing at their request when some thread makes
+      a move that is not a write request/grant and the pending sets are unchanged. *)
+  Lemma wq_step : forall L L' T t k l k',
+    Inv {| lk := L; thr := T |} ->
+    nth_error T t = Some k -> lstep p k l k' ->
+    (forall c0, l <> LAcq c0 W) ->
+    (forall c0, wq (L' c0) = wq (L c0)) ->
+    forall c0 t0, In t0 (wq (L' c0)) ->
+      exists k1, nth_error (set_nth t k' T) t0 = Some (KS (SAcq c0 W) :: k1).
+  Proof.
+    intros L L' T t k l k' HI Ht Hl Hlab Hwq c0 t0 Hin.
+    rewrite Hwq in Hin. destruct (inv_wq _ HI _ _ Hin) as [k1 Hk1]. simpl in Hk1.
+    destruct (Nat.eq_dec t t0) as [E|N].
+    - subst t0. rewrite Ht in Hk1. inversion Hk1; subst.
+      apply lstep_acq_head in Hl. destruct Hl as [El _]. exfalso. eapply Hlab; eauto.
+    - exists k1. rewrite nth_error_set_nth_neq by exact N. exact Hk1.
+  Qed.
+
+  Lemma init_inv : forall es,
+    check_program p guard = true -> entries_ok p es -> Inv (init es).
+  Proof.
+    intros es Hok Hes. constructor; simpl.
+    - intros t k Hn. exists []. split.
+      + intros c. unfold locks0, wcount. simpl. split; reflexivity.
+      + rewrite nth_error_map in Hn. destruct (nth_error es t) as [f|] eqn:Ef; [|discriminate].
+        simpl in Hn. inversion Hn; subst.
+        apply roots_safe; [exact Hok|].
+        unfold entries_ok in Hes. rewrite Forall_forall in Hes.
+        rewrite (Hes f); [reflexivity|]. eapply nth_error_In; eauto.
+    - intros c0 H. reflexivity.
+    - intros c0 t H. destruct H.
+    - intros c0 t [H|H]; [destruct H|discriminate].
+  Qed.
+
+  Lemma tstep_inv : forall t c c', tstep p t c c' -> Inv c -> Inv c'.
+  Proof.
+    intros t c c' Hst HI.
+    inversion Hst as
+      [L T t0 k k' Hn Hl | L T t0 k k' l w r Hn Hl | L T t0 k k' f Hn Hl
+      | L T t0 k k' c0 Hn Hl Hen | L T t0 k k' c0 Hn Hl Hnin
+      | L T t0 k k' c0 Hn Hl Hin Hen | L T t0 k k' c0 Hn Hl Hin
+      | L T t0 k k' c0 Hn Hl Hw]; subst; clear Hst.
+    - (* tau *)
+      destruct (inv_thr _ HI _ _ Hn) as [h [Ha Hs]]. simpl in Ha.
+      pose proof (nth_error_lt _ _ _ _ Hn) as Hlt.
+      constructor; simpl.
+      + eapply thr_step; [exact (inv_thr _ HI)|exact Hlt| |tauto].
+        exists h. split; [exact Ha|]. exact (safe_step _ _ _ _ _ _ Hs Hl).
+      + exact (inv_excl _ HI).
+      + eapply wq_step; eauto; intros; discriminate.
+      + intros c0 t' H. rewrite length_set_nth. exact (inv_dom _ HI c0 t' H).
+    - (* acc *)
+      destruct (inv_thr _ HI _ _ Hn) as [h [Ha Hs]]. simpl in Ha.
+      pose proof (nth_error_lt _ _ _ _ Hn) as Hlt.
+      constructor; simpl.
+      + eapply thr_step; [exact (inv_thr _ HI)|exact Hlt| |tauto].
+        exists h. split; [exact Ha|]. exact (safe_step _ _ _ _ _ _ Hs Hl).
+      + exact (inv_excl _ HI).
+      + eapply wq_step; eauto; intros; discriminate.
+      + intros c0 t' H. rewrite length_set_nth. exact (inv_dom _ HI c0 t' H).
+    - (* spawn *)
+      destruct (inv_thr _ HI _ _ Hn) as [h [Ha Hs]]. simpl in Ha.
+      pose proof (nth_error_lt _ _ _ _ Hn) as Hlt.
+      constructor; simpl.
+      + intros t' k0 Hn'.
+        destruct (Nat.lt_ge_cases t' (List.length (set_nth t k' T))) as [Hlt'|Hge].
+        * rewrite nth_error_app1 in Hn' by exact Hlt'.
+          eapply thr_step; [exact (inv_thr _ HI)|exact Hlt| |tauto|exact Hn'].
+          exists h. split; [exact Ha|]. exact (safe_step _ _ _ _ _ _ Hs Hl).
+        * rewrite nth_error_app2 in Hn' by exact Hge.
+          destruct (t' - List.length (set_nth t k' T)) as [|d] eqn:Ed; simpl in Hn'.
+          -- inversion Hn'; subst. exists []. split.
+             ++ intros c0. rewrite length_set_nth in Hge. split.
+                ** simpl. symmetry. apply count_occ_not_In. intros Hin.
+                   pose proof (inv_dom _ HI c0 t' (or_introl Hin)). simpl in *. lia.
+                ** simpl. unfold wcount. destruct (writer (L c0)) as [tw|] eqn:Ew; [|reflexivity].
+                   destruct (Nat.eq_dec tw t'); [|reflexivity]. subst tw.
+                   pose proof (inv_dom _ HI c0 t' (or_intror Ew)). simpl in *. lia.
+             ++ exact (safe_spawn _ _ _ _ _ _ Hs Hl).
+          -- destruct d; discriminate.
+      + exact (inv_excl _ HI).
+      + intros c0 t' Hin.
+        assert (Hw : exists k1, nth_error (set_nth t k' T) t' = Some (KS (SAcq c0 W) :: k1)).
+        { eapply wq_step with (L' := L); eauto; intros; discriminate. }
+        destruct Hw as [k1 Hk1]. exists k1. rewrite nth_error_app1; [exact Hk1|].
+        eapply nth_error_lt; eauto.
+      + intros c0 t' H. rewrite app_length, length_set_nth. simpl.
+        pose proof (inv_dom _ HI c0 t' H). simpl in *. lia.
+    - (* rlock *)
+      destruct (inv_thr _ HI _ _ Hn) as [h [Ha Hs]]. simpl in Ha.
+      pose proof (nth_error_lt _ _ _ _ Hn) as Hlt.
+      destruct Hen as [Hw Hq].
+      constructor; simpl.
+      + eapply thr_step; [exact (inv_thr _ HI)|exact Hlt| |].
+        * exists ((c0, R) :: h). split; [apply agrees_acq_R; exact Ha|].
+          exact (safe_step _ _ _ _ _ _ Hs Hl).
+        * intros t' h' Hne Ha'. apply agrees_acq_R_other; assumption.
+      + intros c1. cases_upd c0 c1; simpl.
+        * intros Hc. congruence.
+        * exact (inv_excl _ HI c1).
+      + eapply wq_step; eauto.
+        * intros c1 E. inversion E.
+        * intros c1. cases_upd c0 c1; reflexivity.
+      + intros c1 t' H. rewrite length_set_nth. revert H. cases_upd c0 c1; simpl.
+        * intros [[E|H]|H]; [subst; exact Hlt| |].
+          -- exact (inv_dom _ HI c1 t' (or_introl H)).
+          -- exact (inv_dom _ HI c1 t' (or_intror H)).
+        * intros H. exact (inv_dom _ HI c1 t' H).
+    - (* write request *)
+      constructor; simpl.
+      + intros t' k0 Hn'. destruct (inv_thr _ HI _ _ Hn') as [h [Ha Hs]]. simpl in Ha.
+        exists h. split; [apply agrees_pending; exact Ha|exact Hs].
+      + intros c1. cases_upd c0 c1; simpl; exact (inv_excl _ HI c1).
+      + intros c1 t'. cases_upd c0 c1; simpl.
+        * intros [E|Hin].
+          -- subst t'. apply lstep_label_acq in Hl. subst k. eexists; exact Hn.
+          -- exact (inv_wq _ HI c1 t' Hin).
+        * intros Hin. exact (inv_wq _ HI c1 t' Hin).
+      + intros c1 t'. cases_upd c0 c1; simpl; intros H; exact (inv_dom _ HI c1 t' H).
+    - (* write grant *)
+      destruct (inv_thr _ HI _ _ Hn) as [h [Ha Hs]]. simpl in Ha.
+      pose proof (nth_error_lt _ _ _ _ Hn) as Hlt.
+      destruct Hen as [Hr Hw].
+      pose proof (lstep_label_acq _ _ _ _ _ Hl) as Ek.
+      constructor; simpl.
+      + eapply thr_step; [exact (inv_thr _ HI)|exact Hlt| |].
+        * exists ((c0, W) :: h). split; [apply agrees_grant; assumption|].
+          exact (safe_step _ _ _ _ _ _ Hs Hl).
+        * intros t' h' Hne Ha'. apply agrees_grant_other; assumption.
+      + intros c1. cases_upd c0 c1; simpl.
+        * intros _. exact Hr.
+        * exact (inv_excl _ HI c1).
+      + intros c1 t'. cases_upd c0 c1; simpl.
+        * intros Hin'. apply in_remove in Hin'. destruct Hin' as [Hin' Hne].
+          destruct (inv_wq _ HI c1 t' Hin') as [k1 Hk1]. simpl in Hk1.
+          exists k1. rewrite nth_error_set_nth_neq by congruence. exact Hk1.
+        * intros Hin'. destruct (inv_wq _ HI c1 t' Hin') as [k1 Hk1]. simpl in Hk1.
+          destruct (Nat.eq_dec t t') as [E|Nt].
+          -- subst t'. rewrite Hn in Hk1. subst k. inversion Hk1; congruence.
+          -- exists k1. rewrite nth_error_set_nth_neq by exact Nt. exact Hk1.
+      + intros c1 t' H. rewrite length_set_nth. revert H. cases_upd c0 c1; simpl.
+        * intros [H|H]; [exact (inv_dom _ HI c1 t' (or_introl H))|].
+          inversion H; subst. exact Hlt.
+        * intros H. exact (inv_dom _ HI c1 t' H).
+    - (* read unlock *)
+      destruct (inv_thr _ HI _ _ Hn) as [h [Ha Hs]]. simpl in Ha.
+      pose proof (nth_error_lt _ _ _ _ Hn) as Hlt.
+      constructor; simpl.
+      + eapply thr_step; [exact (inv_thr _ HI)|exact Hlt| |].
+        * exists (remove_one lm_eq_dec (c0, R) h). split; [apply agrees_rel_R; exact Ha|].
+          exact (safe_step _ _ _ _ _ _ Hs Hl).
+        * intros t' h' Hne Ha'. apply agrees_rel_R_other; assumption.
+      + intros c1. cases_upd c0 c1; simpl.
+        * intros Hc. pose proof (inv_excl _ HI _ Hc) as Hx. simpl in Hx.
+          rewrite Hx in Hin. destruct Hin.
+        * exact (inv_excl _ HI c1).
+      + eapply wq_step; eauto.
+        * intros c1 E. inversion E.
+        * intros c1. cases_upd c0 c1; reflexivity.
+      + intros c1 t' H. rewrite length_set_nth. revert H. cases_upd c0 c1; simpl.
+        * intros [H|H].
+          -- apply in_remove_one in H. exact (inv_dom _ HI c1 t' (or_introl H)).
+          -- exact (inv_dom _ HI c1 t' (or_intror H)).
+        * intros H. exact (inv_dom _ HI c1 t' H).
+    - (* write unlock *)
+      destruct (inv_thr _ HI _ _ Hn) as [h [Ha Hs]]. simpl in Ha.
+      pose proof (nth_error_lt _ _ _ _ Hn) as Hlt.
+      constructor; simpl.
+      + eapply thr_step; [exact (inv_thr _ HI)|exact Hlt| |].
+        * exists (remove_one lm_eq_dec (c0, W) h). split; [apply agrees_rel_W; assumption|].
+          exact (safe_step _ _ _ _ _ _ Hs Hl).
+        * intros t' h' Hne Ha'. apply agrees_rel_W_other with (t := t); assumption.
+      + intros c1. cases_upd c0 c1; simpl.
+        * intros Hc. congruence.
+        * exact (inv_excl _ HI c1).
+      + eapply wq_step; eauto.
+        * intros c1 E. inversion E.
+        * intros c1. cases_upd c0 c1; reflexivity.
+      + intros c1 t' H. rewrite length_set_nth. revert H. cases_upd c0 c1; simpl.
+        * intros [H|H]; [|discriminate]. exact (inv_dom _ HI c1 t' (or_introl H)).
+        * intros H. exact (inv_dom _ HI c1 t' H).
+  Qed.
+
+  Lemma reachable_inv : forall es c,
+    check_program p guard = true -> entries_ok p es -> reachable p es c -> Inv c.
+  Proof.
+    intros es c Hok Hes Hr. unfold reachable in Hr.
+    assert (H : forall c1 c2, star p c1 c2 -> Inv c1 -> Inv c2).
+    { intros c1 c2 Hs. induction Hs as [c0|c1 c2 c3 Hs IH [t Ht]]; intros HI.
+      - exact HI.
+      - eapply tstep_inv; [exact Ht|]. apply IH. exact HI. }
+    eapply H; [exact Hr|]. apply init_inv; assumption.
+  Qed.
+End Invariant.
+
+(* ------------------------------------------------------------------------- *)
+(** * 3. C09: deadlock freedom                                                *)
+(* ------------------------------------------------------------------------- *)
+
+Section LocalProgress.
+  Variable p : program.
+  Variable guard : held -> sk -> bool.
+
+  (** A thread that is unfinished and whose next statement is not a lock
+      request can always move (its release is of a lock it holds, its call
+      is defined, its exit has a block to leave). *)
+  Lemma non_acq_progress : forall c t k,
+    Inv p guard c -> nth_error (thr c) t = Some k -> k <> [] ->
+    (forall c0 m k', k <> KS (SAcq c0 m) :: k') ->
+    exists c', tstep p t c c'.
+  Proof.
+    intros [L T] t k HI Hn Hne Hna. simpl in Hn.
+    destruct (inv_thr _ _ _ HI _ _ Hn) as [h [Ha Hs]]. simpl in Ha.
+    pose proof (safe_good _ _ _ _ Hs) as Hg.
+    destruct k as [|[s| |] k']; [congruence| | |].
+    - destruct s as [c0 m|c0 m|f|f| | |l w r| |s1 s2|s1 s2|b|b|e]; simpl in Hg.
+      + exfalso. eapply Hna. reflexivity.
+      + destruct Hg as [_ Hin]. destruct m.
+        * eexists. eapply st_runlock; [exact Hn|constructor|].
+          apply (agrees_holds_R _ _ _ c0 Ha). exact Hin.
+        * eexists. eapply st_wunlock; [exact Hn|constructor|].
+          apply (agrees_holds_W _ _ _ c0 Ha). exact Hin.
+      + destruct (body p f) as [b|] eqn:Eb; [|congruence].
+        eexists. eapply st_tau; [exact Hn|]. eapply ls_call. exact Eb.
+      + eexists. eapply st_spawn; [exact Hn|constructor].
+      + eexists. eapply st_tau; [exact Hn|constructor].
+      + eexists. eapply st_tau; [exact Hn|constructor].
+      + eexists. eapply st_acc; [exact Hn|constructor].
+      + eexists. eapply st_tau; [exact Hn|constructor].
+      + eexists. eapply st_tau; [exact Hn|constructor].
+      + eexists. eapply st_tau; [exact Hn|apply ls_altl].
+      + eexists. eapply st_tau; [exact Hn|constructor].
+      + eexists. eapply st_tau; [exact Hn|constructor].
+      + destruct k' as [|[s'| |] k'']; simpl in Hg; try contradiction.
+        * eexists. eapply st_tau; [exact Hn|constructor].
+        * destruct e; eexists; (eapply st_tau; [exact Hn|constructor]).
+    - eexists. eapply st_tau; [exact Hn|constructor].
+    - eexists. eapply st_tau; [exact Hn|constructor].
+  Qed.
+End LocalProgress.
+
+Section Progress.
+  Variable p : program.
+
+  Lemma rank_bound : forall c, rank c < max_rank.
+  Proof. destruct c; unfold max_rank; simpl; lia. Qed.
+
+  Lemma order_guard_acq : forall h c m x,
+    order_guard h (SAcq c m) = true -> In x h -> rank (fst x) < rank c.
+  Proof.
+    intros h c m x Hg Hin. simpl in Hg. rewrite forallb_forall in Hg.
+    apply Nat.ltb_lt. apply Hg. exact Hin.
+  Qed.
+
+  (** From a thread standing at a lock request, following waits-for leads to
+      a thread that can move (induction on the distance of the requested
+      class from the top of the lock order). *)
+  Lemma acq_progress : forall c, Inv p order_guard c ->
+    forall d t c0 m k,
+      nth_error (thr c) t = Some (KS (SAcq c0 m) :: k) ->
+      max_rank - rank c0 <= d ->
+      exists t', clos_refl_trans tid (waits_for c) t t' /\ exists c', tstep p t' c c'.
+  Proof.
+    intros c HI. induction d as [|d IH]; intros t c0 m k Hn Hd.
+    - pose proof (rank_bound c0). lia.
+    - (* any holder of c0 leads to a thread that can move *)
+      assert (Hholder : forall t' m',
+                 (m' = R /\ In t' (readers (lk c c0))) \/ (m' = W /\ writer (lk c c0) = Some t') ->
+                 exists t'', clos_refl_trans tid (waits_for c) t' t'' /\ exists c', tstep p t'' c c').
+      { intros t' m' Hh.
+        assert (Hlt : t' < List.length (thr c)).
+        { apply (inv_dom _ _ _ HI c0). destruct Hh as [[_ H]|[_ H]]; [left|right]; exact H. }
+        destruct (nth_error (thr c) t') as [k1|] eqn:Hn1;
+          [|apply nth_error_None in Hn1; lia].
+        destruct (inv_thr _ _ _ HI _ _ Hn1) as [h1 [Ha1 Hs1]].
+        assert (Hin : In (c0, m') h1).
+        { destruct Hh as [[-> H]|[-> H]].
+          - apply (agrees_holds_R _ _ _ c0 Ha1). exact H.
+          - apply (agrees_holds_W _ _ _ c0 Ha1). exact H. }
+        pose proof (safe_good _ _ _ _ Hs1) as Hg.
+        destruct k1 as [|i k1']; [simpl in Hg; subst h1; destruct Hin|].
+        assert (Hcase : (exists c1 m1, i = KS (SAcq c1 m1)) \/
+                        (forall c1 m1 k', i :: k1' <> KS (SAcq c1 m1) :: k')).
+        { destruct i as [s| |]; [destruct s|..];
+            try (right; intros ? ? ? E; discriminate E).
+          left. do 2 eexists. reflexivity. }
+        destruct Hcase as [[c1 [m1 ->]]|Hna].
+        - simpl in Hg. pose proof (order_guard_acq h1 c1 m1 _ Hg Hin) as Hr. simpl in Hr.
+          apply (IH t' c1 m1 k1' Hn1). lia.
+        - exists t'. split; [apply rt_refl|].
+          eapply non_acq_progress; [exact HI|exact Hn1|discriminate|exact Hna]. }
+      assert (Hat : forall m0 k0, nth_error (thr c) t = Some (KS (SAcq c0 m0) :: k0) -> at_acq c t c0 m0).
+      { intros m0 k0 H. exists k0. exact H. }
+      assert (Hvia : forall t' m',
+                 (m' = R /\ In t' (readers (lk c c0))) \/ (m' = W /\ writer (lk c c0) = Some t') ->
+                 exists t'', clos_refl_trans tid (waits_for c) t t'' /\ exists c', tstep p t'' c c').
+      { intros t' m' Hh. destruct (Hholder t' m' Hh) as [t'' [Hrt Hst]].
+        exists t''. split; [|exact Hst].
+        eapply rt_trans; [|exact Hrt]. apply rt_step.
+        eapply wf_holder; [eapply Hat; exact Hn|].
+        unfold holds_lock. destruct Hh as [[_ H]|[_ H]]; [left|right]; exact H. }
+      destruct c as [L T]. simpl in *.
+      destruct m.
+      + (* read request *)
+        destruct (writer (L c0)) as [tw|] eqn:Ew.
+        * apply (Hvia tw W). right. split; reflexivity.
+        * destruct (wq (L c0)) as [|t2 q] eqn:Eq.
+          -- exists t. split; [apply rt_refl|]. eexists.
+             eapply st_rlock; [exact Hn|constructor|]. split; assumption.
+          -- destruct (readers (L c0)) as [|tr rs] eqn:Er.
+             ++ (* the pending writer can be granted the lock *)
+                assert (Hin2 : In t2 (wq (L c0))) by (rewrite Eq; left; reflexivity).
+                destruct (inv_wq _ _ _ HI c0 t2 Hin2) as [k2 Hk2]. simpl in Hk2.
+                exists t2. split.
+                ** apply rt_step. eapply wf_pending; [exists k; exact Hn|exact Hin2].
+                ** eexists. eapply st_wgrant; [exact Hk2|constructor|exact Hin2|].
+                   split; assumption.
+             ++ apply (Hvia tr R). left. split; [reflexivity|]. try rewrite Er. left. reflexivity.
+      + (* write request *)
+        destruct (in_dec Nat.eq_dec t (wq (L c0))) as [Hin|Hnin].
+        * destruct (writer (L c0)) as [tw|] eqn:Ew.
+          -- apply (Hvia tw W). right. split; reflexivity.
+          -- destruct (readers (L c0)) as [|tr rs] eqn:Er.
+             ++ exists t. split; [apply rt_refl|]. eexists.
+                eapply st_wgrant; [exact Hn|constructor|exact Hin|]. split; assumption.
+             ++ apply (Hvia tr R). left. split; [reflexivity|]. try rewrite Er. left. reflexivity.
+        * exists t. split; [apply rt_refl|]. eexists.
+          eapply st_wreq; [exact Hn|constructor|exact Hnin].
+  Qed.
+
+  Lemma thread_progress : forall c, Inv p order_guard c ->
+    forall t k, nth_error (thr c) t = Some k -> k <> [] ->
+    exists t', clos_refl_trans tid (waits_for c) t t' /\ exists c', tstep p t' c c'.
+  Proof.
+    intros c HI t k Hn Hne.
+    assert (Hcase : (exists c1 m1 k1, k = KS (SAcq c1 m1) :: k1) \/
+                    (forall c1 m1 k', k <> KS (SAcq c1 m1) :: k')).
+    { destruct k as [|i k']; [congruence|].
+      destruct i as [s| |]; [destruct s|..];
+        try (right; intros ? ? ? E; discriminate E).
+      left. do 3 eexists. reflexivity. }
+    destruct Hcase as [[c1 [m1 [k1 ->]]]|Hna].
+    - eapply acq_progress; [exact HI|exact Hn|apply le_n].
+    - exists t. split; [apply rt_refl|]. eapply non_acq_progress; eauto.
+  Qed.
+End Progress.
+
+(** ** Main theorems for C09 *)
+
+(** No partial deadlock: in every reachable configuration of a program that
+    passes [lock_order_ok], every unfinished thread either can move or waits,
+    through a finite waits-for chain, for a thread that can move. *)
+Theorem no_partial_deadlock : forall p,
+  lock_order_ok p = true ->
+  forall es, entries_ok p es ->
+  forall c, reachable p es c ->
+  forall t k, nth_error (thr c) t = Some k -> k <> [] ->
+  exists t', clos_refl_trans tid (waits_for c) t t' /\ exists c', tstep p t' c c'.
+Proof.
+  intros p Hok es Hes c Hr t k Hn Hne.
+  eapply thread_progress; [|exact Hn|exact Hne].
+  eapply reachable_inv; eauto.
+Qed.
+
+(** Deadlock freedom: no reachable configuration is stuck. *)
+Theorem deadlock_free : forall p,
+  lock_order_ok p = true ->
+  forall es, entries_ok p es ->
+  forall c, reachable p es c -> ~ stuck p c.
+Proof.
+  intros p Hok es Hes c Hr [[t [k [Hn Hne]]] Hno].
+  destruct (no_partial_deadlock p Hok es Hes c Hr t k Hn Hne) as [t' [_ [c' Hst]]].
+  apply (Hno c'). exists t'. exact Hst.
+Qed.
+
+(* ------------------------------------------------------------------------- *)
+(** * 4. C08 (static half): lockset data-race freedom                         *)
+(* ------------------------------------------------------------------------- *)
+
+Section Lockset.
+  Lemma holds_b_R : forall L t h c,
+    agrees L t h -> holds_b h (c, R) = true ->
+    In t (readers (L c)) \/ writer (L c) = Some t.
+  Proof.
+    intros L t h c Ha Hh. unfold holds_b in Hh. simpl in Hh.
+    apply orb_true_iff in Hh. destruct Hh as [Hh|Hh]; apply in_held_true in Hh.
+    - left. apply (agrees_holds_R _ _ _ c Ha). exact Hh.
+    - right. apply (agrees_holds_W _ _ _ c Ha). exact Hh.
+  Qed.
+
+  Lemma holds_b_W : forall L t h c,
+    agrees L t h -> holds_b h (c, W) = true -> writer (L c) = Some t.
+  Proof.
+    intros L t h c Ha Hh. unfold holds_b in Hh. simpl in Hh.
+    apply in_held_true in Hh. apply (agrees_holds_W _ _ _ c Ha). exact Hh.
+  Qed.
+
+  (** Two requirements that exclude each other cannot be satisfied by two
+      distinct threads in the same lock state. *)
+  Lemma excl_contra : forall L t1 t2 h1 h2 q1 q2,
+    (forall c0, writer (L c0) <> None -> readers (L c0) = []) ->
+    t1 <> t2 -> agrees L t1 h1 -> agrees L t2 h2 ->
+    sat_req h1 q1 = true -> sat_req h2 q2 = true ->
+    excl_req q1 q2 = true -> False.
+  Proof.
+    intros L t1 t2 h1 h2 q1 q2 Hex Hne Ha1 Ha2 Hs1 Hs2 He.
+    unfold excl_req in He. apply existsb_exists in He. destruct He as [[c1 m1] [Hx He]].
+    apply existsb_exists in He. destruct He as [[c2 m2] [Hy He]].
+    apply andb_true_iff in He. destruct He as [Ec Hm]. simpl in Ec, Hm.
+    destruct (lclass_eq_dec c1 c2) as [E|]; [subst c2|discriminate].
+    unfold sat_req in Hs1, Hs2. rewrite forallb_forall in Hs1, Hs2.
+    pose proof (Hs1 _ Hx) as H1. pose proof (Hs2 _ Hy) as H2.
+    destruct m1; destruct m2; try discriminate.
+    - (* R / W *)
+      apply (holds_b_W _ _ _ _ Ha2) in H2.
+      destruct (holds_b_R _ _ _ _ Ha1 H1) as [Hr|Hw].
+      + rewrite (Hex c1) in Hr by congruence. destruct Hr.
+      + congruence.
+    - (* W / R *)
+      apply (holds_b_W _ _ _ _ Ha1) in H1.
+      destruct (holds_b_R _ _ _ _ Ha2 H2) as [Hr|Hw].
+      + rewrite (Hex c1) in Hr by congruence. destruct Hr.
+      + congruence.
+    - (* W / W *)
+      apply (holds_b_W _ _ _ _ Ha1) in H1. apply (holds_b_W _ _ _ _ Ha2) in H2. congruence.
+  Qed.
+
+  Lemma lookup_in : forall pol l r, lookup pol l = Some r -> In (l, r) pol.
+  Proof.
+    induction pol as [|[l' r'] pol IH]; intros l r H; simpl in H; [discriminate|].
+    destruct (String.eqb l l') eqn:E.
+    - apply String.eqb_eq in E. inversion H; subst. left. reflexivity.
+    - right. apply IH. exact H.
+  Qed.
+
+  Lemma inv_no_race : forall p pol c,
+    policy_wf pol = true -> Inv p (lockset_guard pol) c -> ~ race c.
+  Proof.
+    intros p pol c Hwf HI [t1 [t2 [l [w1 [w2 [k1 [k2 [Hne [Hn1 [Hn2 Hw]]]]]]]]]].
+    destruct (inv_thr _ _ _ HI _ _ Hn1) as [h1 [Ha1 Hs1]].
+    destruct (inv_thr _ _ _ HI _ _ Hn2) as [h2 [Ha2 Hs2]].
+    pose proof (safe_good _ _ _ _ Hs1) as Hg1. pose proof (safe_good _ _ _ _ Hs2) as Hg2.
+    simpl in Hg1, Hg2.
+    destruct (lookup pol l) as [r|] eqn:El; [|discriminate].
+    assert (Hr : rule_wf r = true).
+    { unfold policy_wf in Hwf. rewrite forallb_forall in Hwf.
+      apply (Hwf (l, r)). apply lookup_in. exact El. }
+    unfold rule_wf in Hr. rewrite forallb_forall in Hr.
+    unfold sat_dnf in Hg1, Hg2.
+    apply existsb_exists in Hg1. destruct Hg1 as [q1 [Hq1 Hsat1]].
+    apply existsb_exists in Hg2. destruct Hg2 as [q2 [Hq2 Hsat2]].
+    destruct w1.
+    - (* thread 1 writes: q1 is a write alternative *)
+      pose proof (Hr q1 Hq1) as Hall. rewrite forallb_forall in Hall.
+      assert (Hq2' : In q2 (rd r ++ wr r)).
+      { apply in_or_app. destruct w2; [right|left]; exact Hq2. }
+      eapply (excl_contra (lk c) t2 t1 h2 h1 q2 q1); eauto. exact (inv_excl _ _ _ HI).
+    - destruct w2; [|discriminate].
+      (* thread 2 writes, thread 1 reads *)
+      pose proof (Hr q2 Hq2) as Hall. rewrite forallb_forall in Hall.
+      assert (Hq1' : In q1 (rd r ++ wr r)) by (apply in_or_app; left; exact Hq1).
+      eapply (excl_contra (lk c) t1 t2 h1 h2 q1 q2); eauto. exact (inv_excl _ _ _ HI).
+  Qed.
+End Lockset.
+
+(** Lockset soundness: a program that passes [lockset_ok] for a (well-formed)
+    policy has no reachable configuration in which two distinct threads are
+    both about to access the same shared location class, one of them writing.
+    The policy is fully general (DNF of lock requirements per access kind);
+    its side condition [policy_wf] is part of [lockset_ok]. *)
+Theorem lockset_drf : forall p pol,
+  lockset_ok pol p = true ->
+  forall es, entries_ok p es ->
+  forall c, reachable p es c -> ~ race c.
+Proof.
+  intros p pol Hok es Hes c Hr. unfold lockset_ok in Hok.
+  apply andb_true_iff in Hok. destruct Hok as [Hwf Hck].
+  eapply inv_no_race; [exact Hwf|]. eapply reachable_inv; eauto.
+Qed.
+
+(* ------------------------------------------------------------------------- *)
+(** * 5. The executable semantics is sound; corollaries for schedules         *)
+(* ------------------------------------------------------------------------- *)
+
+Lemma in_b_true : forall t l, in_b t l = true <-> In t l.
+Proof.
+  intros t l. unfold in_b. rewrite existsb_exists. split.
+  - intros [x [Hx E]]. apply Nat.eqb_eq in E. subst. exact Hx.
+  - intros H. exists t. split; [exact H|apply Nat.eqb_refl].
+Qed.
+
+Lemma exec_step_sound : forall p c a c',
+  exec_step p c a = Some c' -> tstep p (fst a) c c'.
+Proof.
+  intros p [L T] [t rgt] c' H. unfold exec_step in H. simpl in H. simpl fst.
+  destruct (nth_error T t) as [k|] eqn:Hn; [|discriminate].
+  destruct k as [|[s| |] k']; [discriminate| | |].
+  - destruct s as [c0 m|c0 m|f|f| | |l w r| |s1 s2|s1 s2|b|b|e].
+    + destruct m.
+      * destruct (is_none (writer (L c0)) && is_nil (wq (L c0))) eqn:E; [|discriminate].
+        apply andb_true_iff in E. destruct E as [E1 E2]. inversion H; subst.
+        eapply st_rlock; [exact Hn|constructor|]. split.
+        -- destruct (writer (L c0)); [discriminate|reflexivity].
+        -- destruct (wq (L c0)); [reflexivity|discriminate].
+      * destruct (in_b t (wq (L c0))) eqn:Ein.
+        -- destruct (is_nil (readers (L c0)) && is_none (writer (L c0))) eqn:E; [|discriminate].
+           apply andb_true_iff in E. destruct E as [E1 E2]. inversion H; subst.
+           eapply st_wgrant; [exact Hn|constructor|apply in_b_true; exact Ein|]. split.
+           ++ destruct (readers (L c0)); [reflexivity|discriminate].
+           ++ destruct (writer (L c0)); [discriminate|reflexivity].
+        -- inversion H; subst. eapply st_wreq; [exact Hn|constructor|].
+           intros Hin. apply in_b_true in Hin. congruence.
+    + destruct m.
+      * destruct (in_b t (readers (L c0))) eqn:Ein; [|discriminate]. inversion H; subst.
+        eapply st_runlock; [exact Hn|constructor|apply in_b_true; exact Ein].
+      * destruct (writer (L c0)) as [tw|] eqn:Ew; [|discriminate].
+        destruct (Nat.eqb tw t) eqn:Et; [|discriminate]. apply Nat.eqb_eq in Et. subst tw.
+        inversion H; subst. eapply st_wunlock; [exact Hn|constructor|exact Ew].
+    + destruct (body p f) as [b|] eqn:Eb; [|discriminate]. inversion H; subst.
+      eapply st_tau; [exact Hn|]. apply ls_call. exact Eb.
+    + inversion H; subst. eapply st_spawn; [exact Hn|constructor].
+    + inversion H; subst. eapply st_tau; [exact Hn|constructor].
+    + inversion H; subst. eapply st_tau; [exact Hn|constructor].
+    + inversion H; subst. eapply st_acc; [exact Hn|constructor].
+    + inversion H; subst. eapply st_tau; [exact Hn|constructor].
+    + inversion H; subst. eapply st_tau; [exact Hn|constructor].
+    + inversion H; subst. eapply st_tau; [exact Hn|]. destruct rgt; constructor.
+    + inversion H; subst. eapply st_tau; [exact Hn|constructor].
+    + inversion H; subst. eapply st_tau; [exact Hn|constructor].
+    + destruct k' as [|[s'| |] k'']; try discriminate.
+      * inversion H; subst. eapply st_tau; [exact Hn|constructor].
+      * destruct e; inversion H; subst; (eapply st_tau; [exact Hn|constructor]).
+  - inversion H; subst. eapply st_tau; [exact Hn|constructor].
+  - inversion H; subst. eapply st_tau; [exact Hn|constructor].
+Qed.
+
+Lemma exec_from_star : forall p sched c, star p c (exec_from p c sched).
+Proof.
+  intros p sched. induction sched as [|a sched IH]; intros c; simpl.
+  - apply star_refl.
+  - destruct (exec_step p c a) as [c'|] eqn:E; [|apply IH].
+    assert (Htr : forall c1 c2 c3, star p c1 c2 -> star p c2 c3 -> star p c1 c3).
+    { intros c1 c2 c3 H12 H23. induction H23 as [|x y z _ IH23 Hs]; [exact H12|].
+      eapply star_step; [apply IH23; exact H12|exact Hs]. }
+    eapply Htr; [|apply IH].
+    eapply star_step; [apply star_refl|]. exists (fst a). apply exec_step_sound. exact E.
+Qed.
+
+Lemma exec_reachable : forall p es sched, reachable p es (exec p es sched).
+Proof. intros. apply exec_from_star. Qed.
+
+(** The statements in the form of DESIGN.md: for any number of threads, any
+    entry points, any schedule. *)
+Corollary deadlock_free_exec : forall p,
+  lock_order_ok p = true ->
+  forall es sched, entries_ok p es -> ~ stuck p (exec p es sched).
+Proof. intros p H es sched Hes. eapply deadlock_free; eauto. apply exec_reachable. Qed.
+
+Corollary lockset_drf_exec : forall p pol,
+  lockset_ok pol p = true ->
+  forall es sched, entries_ok p es -> ~ race (exec p es sched).
+Proof. intros p pol H es sched Hes. eapply lockset_drf; eauto. apply exec_reachable. Qed.
+
+(* ------------------------------------------------------------------------- *)
+(** * 6. Examples: the hypotheses matter, and are satisfiable                 *)
+(* ------------------------------------------------------------------------- *)
+
+Open Scope string_scope.
+
+(** ** 6.1 A re-entrant read path reaches a stuck state (the shape of D10)
+
+    [All] takes the handle read lock and calls the public [Iterator], which
+    takes it again; [InsertOrUpdate] takes the write lock. *)
+Definition ex_Iterator : fundef :=
+  {| fname := "Iterator"; fentry := true; fspawn := false;
+     fbody := sseq [SAcq LHandle R; SAcc "objIndex.uuids" false RShared; SRel LHandle R] |}.
+Definition ex_All : fundef :=
+  {| fname := "All"; fentry := true; fspawn := false;
+     fbody := sseq [SAcq LHandle R; SCall 0; SRel LHandle R] |}.
+Definition ex_Insert : fundef :=
+  {| fname := "InsertOrUpdate"; fentry := true; fspawn := false;
+     fbody := sseq [SAcq LHandle W; SAcc "objIndex.uuids" true RShared; SRel LHandle W] |}.
+Definition ex_reentrant : program := [ex_Iterator; ex_All; ex_Insert].
+
+(** T0 runs [All], T1 runs [InsertOrUpdate].  Schedule: T0 enters [All] and
+    gets the read lock; T1 requests the write lock (becomes pending); T0
+    calls [Iterator] and requests the read lock again. *)
+Definition ex_sched : list (tid * bool) :=
+  [(0, false); (0, false); (0, false);
+   (1, false); (1, false); (1, false);
+   (0, false); (0, false); (0, false)].
+
+Example ex_reentrant_rejected : lock_order_ok ex_reentrant = false.
+Proof. vm_compute. reflexivity. Qed.
+
+(** The generic shape: T0 holds R on the handle and requests R again, T1 is a
+    pending writer. *)
+Lemma reentrant_shape_stuck : forall p c k0 k1,
+  thr c = [KS (SAcq LHandle R) :: k0; KS (SAcq LHandle W) :: k1] ->
+  readers (lk c LHandle) = [0] -> writer (lk c LHandle) = None -> wq (lk c LHandle) = [1] ->
+  stuck p c.
+Proof.
+  intros p [L T] k0 k1 HT Hr Hw Hq. simpl in *. subst T. split.
+  - exists 0. eexists. split; [reflexivity|discriminate].
+  - intros c' [t Hst].
+    inversion Hst as
+      [L0 T0 t0 k k' Hn Hl | L0 T0 t0 k k' l w r Hn Hl | L0 T0 t0 k k' f Hn Hl
+      | L0 T0 t0 k k' c0 Hn Hl Hen | L0 T0 t0 k k' c0 Hn Hl Hnin
+      | L0 T0 t0 k k' c0 Hn Hl Hin Hen | L0 T0 t0 k k' c0 Hn Hl Hin
+      | L0 T0 t0 k k' c0 Hn Hl Hw0]; subst;
+      (destruct t as [|[|t]]; simpl in Hn;
+       [inversion Hn; subst; inversion Hl; subst
+       |inversion Hn; subst; inversion Hl; subst
+       |destruct t; discriminate Hn]).
+    + destruct Hen as [_ Hq']. rewrite Hq in Hq'. discriminate.
+    + apply Hnin. rewrite Hq. left. reflexivity.
+    + destruct Hen as [Hr' _]. rewrite Hr in Hr'. discriminate.
+Qed.
+
+Theorem stuck_example :
+  let c := exec ex_reentrant [1; 2] ex_sched in
+  entries_ok ex_reentrant [1; 2] /\
+  reachable ex_reentrant [1; 2] c /\
+  lk c LHandle = {| readers := [0]; writer := None; wq := [1] |} /\
+  (exists k0 k1, thr c = [KS (SAcq LHandle R) :: k0; KS (SAcq LHandle W) :: k1]) /\
+  stuck ex_reentrant c.
+Proof.
+  intros c. split; [|split; [|split; [|split]]].
+  - repeat constructor.
+  - apply exec_reachable.
+  - vm_compute. reflexivity.
+  - vm_compute. do 2 eexists. reflexivity.
+  - eapply reentrant_shape_stuck; vm_compute; reflexivity.
+Qed.
+
+(** ** 6.2 A write under the read lock reaches a race (the shape of D11) *)
+
+Definition ex_policy : policy :=
+  [("DB.schemas", {| rd := [[(LHandle, R)]]; wr := [[(LHandle, W)]] |});
+   ("objIndex.uuids", {| rd := [[(LHandle, R)]]; wr := [[(LHandle, W)]] |});
+   ("objectStore.m@cache", {| rd := [[(LStore ICache, R)]]; wr := [[(LStore ICache, W)]] |});
+   ("objectMap.m@cache", {| rd := [[(LMap ICache, R)]]; wr := [[(LMap ICache, W)]] |});
+   ("objectStore.m@asyncw",
+      {| rd := [[(LStore IAsync, R)]; [(LHandle, W)]];
+         wr := [[(LStore IAsync, W); (LHandle, W)]] |})].
+
+Definition ex_Count : fundef :=
+  {| fname := "Count"; fentry := true; fspawn := false;
+     fbody := sseq [SAcq LHandle R; SAcc "DB.schemas" true RShared; SRel LHandle R] |}.
+Definition ex_lazy : program := [ex_Count].
+
+Example ex_lazy_rejected : lockset_ok ex_policy ex_lazy = false.
+Proof. vm_compute. reflexivity. Qed.
+
+Theorem race_example :
+  let c := exec ex_lazy [0; 0] [(0, false); (0, false); (0, false); (0, false);
+                                (1, false); (1, false); (1, false); (1, false)] in
+  entries_ok ex_lazy [0; 0] /\ reachable ex_lazy [0; 0] c /\ race c.
+Proof.
+  intros c. split; [|split].
+  - repeat constructor.
+  - apply exec_reachable.
+  - exists 0, 1, "DB.schemas", true, true. vm_compute. do 2 eexists.
+    split; [discriminate|]. split; [reflexivity|]. split; reflexivity.
+Qed.
+
+(** ** 6.3 Non-vacuity: a program with all three lock levels, a loop, a
+    goroutine, hooks and early exits that passes both checks *)
+
+Definition ex_good : program := [
+  (* 0 *) {| fname := "(*objectMap).get[C]"; fentry := false; fspawn := false;
+     fbody := SBlock (sseq [SAcq (LMap ICache) R;
+                            SBlock (sseq [SAcc "objectMap.m@cache" false RShared; SExit 0]);
+                            SRel (LMap ICache) R]) |};
+  (* 1 *) {| fname := "(*objectStore).get[C]"; fentry := false; fspawn := false;
+     fbody := SBlock (sseq [SAcq (LStore ICache) R;
+                            SBlock (sseq [SAcc "objectStore.m@cache" false RShared;
+                                          salt [SCall 0; SSkip]; SExit 0]);
+                            SRel (LStore ICache) R]) |};
+  (* 2 *) {| fname := "(*DB).get"; fentry := false; fspawn := false;
+     fbody := sseq [SAcc "DB.schemas" false RShared; SHook; SCall 1] |};
+  (* 3 *) {| fname := "(*DB).iterator"; fentry := false; fspawn := false;
+     fbody := sseq [SAcc "DB.schemas" false RShared; SAcc "objIndex.uuids" false RShared] |};
+  (* 4 *) {| fname := "(*DB).Iterator"; fentry := true; fspawn := false;
+     fbody := SBlock (sseq [SAcq LHandle R; SBlock (sseq [SCall 3; SExit 0]); SRel LHandle R]) |};
+  (* 5 *) {| fname := "(*DB).All"; fentry := true; fspawn := false;
+     fbody := SBlock (sseq [SAcq LHandle R;
+                            SBlock (sseq [SCall 3;
+                                          SBlock (SLoop (salt [SExit 0; SCall 2]));
+                                          SExit 0]);
+                            SRel LHandle R]) |};
+  (* 6 *) {| fname := "flusher"; fentry := false; fspawn := true;
+     fbody := SBlock (SLoop (sseq [
+                salt [SExit 0; SSkip];
+                SAcq LHandle R; SAcq (LStore IAsync) R;
+                SAcc "objectStore.m@asyncw" false RShared;
+                SRel (LStore IAsync) R; SRel LHandle R;
+                salt [sseq [SAcq LHandle W; SAcc "objectStore.m@asyncw" false RShared;
+                            SAcc "DB.schemas" false RShared; SRel LHandle W];
+                      SSkip]])) |};
+  (* 7 *) {| fname := "(*DB).InsertOrUpdate"; fentry := true; fspawn := false;
+     fbody := SBlock (sseq [SAcq LHandle W;
+                            SBlock (sseq [SAcc "DB.schemas" true RShared; SGo 6; SHook;
+                                          salt [SExit 0; SSkip];
+                                          SAcc "objIndex.uuids" true RShared;
+                                          SAcq (LStore IAsync) W;
+                                          SAcc "objectStore.m@asyncw" true RShared;
+                                          SRel (LStore IAsync) W]);
+                            SRel LHandle W]) |};
+  (* 8 *) {| fname := "(*DB).InsertOrUpdateBulk"; fentry := true; fspawn := false;
+     fbody := SBlock (SLoop (sseq [SWait; salt [SExit 0; SCall 7]])) |}
+].
+
+Example ex_good_order : lock_order_ok ex_good = true.
+Proof. vm_compute. reflexivity. Qed.
+
+Example ex_good_lockset : lockset_ok ex_policy ex_good = true.
+Proof. vm_compute. reflexivity. Qed.
+
+Corollary ex_good_deadlock_free : forall es sched,
+  entries_ok ex_good es -> ~ stuck ex_good (exec ex_good es sched).
+Proof. apply deadlock_free_exec. exact ex_good_order. Qed.
+
+Corollary ex_good_race_free : forall es sched,
+  entries_ok ex_good es -> ~ race (exec ex_good es sched).
+Proof. apply (lockset_drf_exec ex_good ex_policy). exact ex_good_lockset. Qed.
+
+(** The repaired shape of the first example ([All] calls an unlocked helper)
+    is accepted. *)
+Definition ex_repaired : program :=
+  [ {| fname := "iterator"; fentry := false; fspawn := false;
+       fbody := SAcc "objIndex.uuids" false RShared |};
+    {| fname := "Iterator"; fentry := true; fspawn := false;
+       fbody := sseq [SAcq LHandle R; SCall 0; SRel LHandle R] |};
+    {| fname := "All"; fentry := true; fspawn := false;
+       fbody := sseq [SAcq LHandle R; SCall 0; SRel LHandle R] |};
+    ex_Insert ].
+
+Example ex_repaired_order : lock_order_ok ex_repaired = true.
+Proof. vm_compute. reflexivity. Qed.
+
+(** ** 6.4 Negative tests of the decision procedures *)
+
+Definition one (b : sk) : program :=
+  [{| fname := "f"; fentry := true; fspawn := false; fbody := b |}].
+
+(* inverted order: map lock, then handle *)
+Example rej_inverted_order :
+  lock_order_ok (one (sseq [SAcq (LMap ICache) R; SAcq LHandle R; SRel LHandle R; SRel (LMap ICache) R])) = false.
+Proof. vm_compute. reflexivity. Qed.
+(* two locks of the same rank nested *)
+Example rej_same_rank :
+  lock_order_ok (one (sseq [SAcq (LStore ICache) R; SAcq (LStore IAsync) R;
+                            SRel (LStore IAsync) R; SRel (LStore ICache) R])) = false.
+Proof. vm_compute. reflexivity. Qed.
+(* read lock upgraded to write lock *)
+Example rej_upgrade :
+  lock_order_ok (one (sseq [SAcq LHandle R; SAcq LHandle W; SRel LHandle W; SRel LHandle R])) = false.
+Proof. vm_compute. reflexivity. Qed.
+(* unlock missing on one branch *)
+Example rej_unbalanced_branch :
+  lock_order_ok (one (sseq [SAcq LHandle W; salt [SRel LHandle W; SSkip]])) = false.
+Proof. vm_compute. reflexivity. Qed.
+(* early return that skips the unlock *)
+Example rej_leak_on_return :
+  lock_order_ok (one (SBlock (sseq [SAcq LHandle W; salt [SExit 0; SSkip]; SRel LHandle W]))) = false.
+Proof. vm_compute. reflexivity. Qed.
+(* ... accepted when the unlock is deferred *)
+Example acc_deferred_unlock :
+  lock_order_ok (one (SBlock (sseq [SAcq LHandle W; SBlock (salt [SExit 0; SSkip]); SRel LHandle W]))) = true.
+Proof. vm_compute. reflexivity. Qed.
+(* release of a lock that is not held; release in the wrong mode *)
+Example rej_unheld_release : lock_order_ok (one (SRel LHandle R)) = false.
+Proof. vm_compute. reflexivity. Qed.
+Example rej_wrong_mode :
+  lock_order_ok (one (sseq [SAcq LHandle R; SRel LHandle W])) = false.
+Proof. vm_compute. reflexivity. Qed.
+(* a loop that accumulates locks *)
+Example rej_loop_accumulates :
+  lock_order_ok (one (SBlock (SLoop (salt [SExit 0; SAcq LHandle R])))) = false.
+Proof. vm_compute. reflexivity. Qed.
+(* blocking wait (channel) under a lock *)
+Example rej_wait_under_lock :
+  lock_order_ok (one (sseq [SAcq LHandle R; SWait; SRel LHandle R])) = false.
+Proof. vm_compute. reflexivity. Qed.
+(* recursion / forward call: the call graph must be acyclic *)
+Example rej_recursion : lock_order_ok (one (salt [SCall 0; SSkip])) = false.
+Proof. vm_compute. reflexivity. Qed.
+(* exit that would cross the function boundary *)
+Example rej_escaping_exit : lock_order_ok (one (SExit 0)) = false.
+Proof. vm_compute. reflexivity. Qed.
+(* spawning a function that is not declared as a goroutine root *)
+Example rej_undeclared_spawn : lock_order_ok (one (SGo 0)) = false.
+Proof. vm_compute. reflexivity. Qed.
+(* a goroutine that leaks a lock *)
+Example rej_goroutine_leak :
+  lock_order_ok [{| fname := "g"; fentry := false; fspawn := true; fbody := SAcq LHandle R |};
+                 {| fname := "f"; fentry := true; fspawn := false; fbody := SGo 0 |}] = false.
+Proof. vm_compute. reflexivity. Qed.
+(* lockset: unlisted location, read with no lock, write of an immutable, local access *)
+Example rej_unlisted_loc : lockset_ok ex_policy (one (SAcc "nowhere" false RShared)) = false.
+Proof. vm_compute. reflexivity. Qed.
+Example rej_unlocked_read : lockset_ok ex_policy (one (SAcc "DB.schemas" false RShared)) = false.
+Proof. vm_compute. reflexivity. Qed.
+Example acc_local_access : lockset_ok ex_policy (one (SAcc "DB.schemas" true RLocal)) = true.
+Proof. vm_compute. reflexivity. Qed.
+(* lockset: a policy whose alternatives do not exclude each other is refused *)
+Example rej_bad_policy :
+  lockset_ok [("x", {| rd := [[(LHandle, R)]]; wr := [[(LStore ICache, W)]] |})] (one SSkip) = false.
+Proof. vm_compute. reflexivity. Qed.
+
+Print Assumptions deadlock_free.
+Print Assumptions no_partial_deadlock.
+Print Assumptions lockset_drf.
+Print Assumptions deadlock_free_exec.
+Print Assumptions lockset_drf_exec.
+Print Assumptions stuck_example.
+Print Assumptions race_example.
+
+(* ------------------------------------------------------------------------- *)
+(** * 7. The computed counter-example is a reachable stuck configuration      *)
+(* ------------------------------------------------------------------------- *)
+
+Lemma star_trans : forall p c1 c2 c3, star p c1 c2 -> star p c2 c3 -> star p c1 c3.
+Proof.
+  intros p c1 c2 c3 H12 H23. induction H23 as [|x y z _ IH23 Hs]; [exact H12|].
+  eapply star_step; [apply IH23; exact H12|exact Hs].
+Qed.
+
+Lemma exec_step_star : forall p c a c', exec_step p c a = Some c' -> star p c c'.
+Proof.
+  intros p c a c' H. eapply star_step; [apply star_refl|].
+  exists (fst a). apply exec_step_sound. exact H.
+Qed.
+
+Lemma drive_star : forall p target fuel c t ch, star p c (fst (drive p target fuel c t ch)).
+Proof.
+  intros p target. induction fuel as [|fuel IH]; intros c t ch; [apply star_refl|].
+  cbn [drive].
+  assert (Hstep : forall a ch0,
+             star p c (fst match exec_step p c a with
+                           | Some c' => drive p target fuel c' t ch0
+                           | None => (c, ch)
+                           end)).
+  { intros a ch0. destruct (exec_step p c a) as [c'|] eqn:E; [|apply star_refl].
+    eapply star_trans; [eapply exec_step_star; exact E|apply IH]. }
+  destruct (nth_error (thr c) t) as [k|]; [|apply star_refl].
+  destruct k as [|[s| |] k']; try apply star_refl; try apply Hstep.
+  destruct s; try apply star_refl; try apply Hstep.
+  - destruct (lclass_eq_dec c0 target); [apply star_refl|apply Hstep].
+  - destruct ch as [|b ch']; [apply star_refl|apply Hstep].
+Qed.
+
+Lemma witness_reachable : forall p target fuel r w c,
+  witness p target fuel r w = Some c -> reachable p [r; w] c.
+Proof.
+  intros p target fuel r w c H. unfold witness in H.
+  destruct (find_choices p target fuel r 1) as [chr|]; [|discriminate].
+  destruct (find_choices p target fuel w 0) as [chw|]; [|discriminate].
+  pose proof (drive_star p target fuel (init [r; w]) 0 chr) as S1.
+  destruct (drive p target fuel (init [r; w]) 0 chr) as [c1 ch1]. simpl in S1.
+  destruct (exec_step p c1 (0, false)) as [c2|] eqn:E2; [|discriminate].
+  pose proof (drive_star p target fuel c2 0 ch1) as S3.
+  destruct (drive p target fuel c2 0 ch1) as [c3 ch3]. simpl in S3.
+  pose proof (drive_star p target fuel c3 1 chw) as S4.
+  destruct (drive p target fuel c3 1 chw) as [c4 ch4]. simpl in S4.
+  unfold reachable.
+  eapply star_trans; [exact S1|]. eapply star_trans; [eapply exec_step_star; exact E2|].
+  eapply star_trans; [exact S3|]. eapply star_trans; [exact S4|].
+  eapply exec_step_star; exact H.
+Qed.
+
+Lemma reentrant_shape_b_stuck : forall p target c,
+  reentrant_shape_b target c = true -> stuck p c.
+Proof.
+  intros p target [L T] H. unfold reentrant_shape_b in H. simpl in H.
+  destruct T as [|k0 T]; [discriminate|].
+  destruct k0 as [|[s0| |] k0]; try discriminate.
+  destruct s0 as [c0 m0| | | | | | | | | | | |]; try discriminate.
+  destruct m0; [|discriminate].
+  destruct T as [|k1 T]; [discriminate|].
+  destruct k1 as [|[s1| |] k1]; try discriminate.
+  destruct s1 as [c1 m1| | | | | | | | | | | |]; try discriminate.
+  destruct m1; [discriminate|].
+  destruct T as [|k2 T]; [|discriminate].
+  repeat (apply andb_true_iff in H; destruct H as [H ?]).
+  destruct (lclass_eq_dec c0 target); [subst c0|discriminate].
+  destruct (lclass_eq_dec c1 target); [subst c1|discriminate].
+  destruct (readers (L target)) as [|tr [|? ?]] eqn:Er; try discriminate.
+  destruct (writer (L target)) eqn:Ew; [discriminate|].
+  destruct (wq (L target)) as [|tw [|? ?]] eqn:Eq; try discriminate.
+  match goal with H : Nat.eqb tr 0 = true |- _ => apply Nat.eqb_eq in H; subst tr end.
+  match goal with H : Nat.eqb tw 1 = true |- _ => apply Nat.eqb_eq in H; subst tw end.
+  split.
+  - exists 0. eexists. split; [reflexivity|discriminate].
+  - intros c' [t Hst].
+    inversion Hst as
+      [L0 T0 t0 k k' Hn Hl | L0 T0 t0 k k' l w r Hn Hl | L0 T0 t0 k k' f Hn Hl
+      | L0 T0 t0 k k' c2 Hn Hl Hen | L0 T0 t0 k k' c2 Hn Hl Hnin
+      | L0 T0 t0 k k' c2 Hn Hl Hin Hen | L0 T0 t0 k k' c2 Hn Hl Hin
+      | L0 T0 t0 k k' c2 Hn Hl Hw0]; subst;
+      (destruct t as [|[|t]]; simpl in Hn;
+       [inversion Hn; subst; inversion Hl; subst
+       |inversion Hn; subst; inversion Hl; subst
+       |destruct t; discriminate Hn]).
+    + destruct Hen as [_ Hq']. rewrite Eq in Hq'. discriminate.
+    + apply Hnin. rewrite Eq. left. reflexivity.
+    + destruct Hen as [Hr' _]. rewrite Er in Hr'. discriminate.
+Qed.
+
+(** If the search succeeds and the result has the expected shape (both are
+    computed), the program has a reachable stuck configuration from the two
+    entry points [r] and [w]. *)
+Theorem witness_stuck : forall p target fuel r w c,
+  witness p target fuel r w = Some c ->
+  reentrant_shape_b target c = true ->
+  reachable p [r; w] c /\ stuck p c.
+Proof.
+  intros p target fuel r w c Hw Hs. split.
+  - eapply witness_reachable; eauto.
+  - eapply reentrant_shape_b_stuck; eauto.
+Qed.
+
+Example ex_reentrant_witness :
+  exists c, witness ex_reentrant LHandle 50 1 2 = Some c /\ reentrant_shape_b LHandle c = true.
+Proof. vm_compute. eexists. split; reflexivity. Qed.
+
+Print Assumptions witness_stuck.
